@@ -72,9 +72,18 @@ def fixtures():
     return _FIX
 
 
+def solids(b):
+    """the solid components of a block by the property's own criterion (material is not a Fluid; Custom materials and
+    every other non-fluid are solid) - deliberately NOT the repository's iterSolidComponents"""
+    from armi.materials import material as mat_mod
+
+    return [c for c in b if not isinstance(c.material, mat_mod.Fluid)]
+
+
 def make_changer():
     from armi.reactor.converters.axialExpansionChanger import AxialExpansionChanger
-    from armi.reactor.converters.axialExpansionChanger.expansionData import iterSolidComponents
+
+    iterSolidComponents = solids
 
     class RecordingChanger(AxialExpansionChanger):
         """records what axiallyExpandAssembly is about to work on (nothing in /repo is touched)"""
@@ -131,11 +140,14 @@ def make_changer():
                 d["geo"] = geo(c)
                 if chg is not None:
                     d["g"] = num(chg.expansionData.getExpansionFactor(c))
-                    low = chg.linked.linkedComponents[c].lower
-                    d["lower"] = None if low is None else prev.index(low)
-                    up = chg.linked.linkedComponents[c].upper
+                    lk = chg.linked.linkedComponents.get(c)
                     nxt = list(iterSolidComponents(a[ib + 1])) if ib + 1 < len(a) else []
-                    d["upper"] = None if up is None else nxt.index(up)
+                    if lk is None:
+                        d["ignored"], d["lower"], d["upper"] = True, None, None     # the code did not treat it as solid
+                    else:
+                        low, up = lk.lower, lk.upper
+                        d["lower"] = None if low is None else (prev.index(low) if low in prev else -1)
+                        d["upper"] = None if up is None else (nxt.index(up) if up in nxt else -1)
                     if chg.expansionData.isTargetComponent(c):
                         tgt.append(ic)
                 comps.append(d)
@@ -228,6 +240,18 @@ def oracle_step(ctx, case, a, pre, post, m_before, H0, top0, mode, f9_budget):
             ctx.fail("boundary-follows-target", "the block top is the top of its target component", dict(case, block=ib),
                      observed=b["zt"], expected=b["comps"][t]["zt"])
         for ic, c in enumerate(b["comps"]):
+            pc = pb["comps"][ic]
+            if pc.get("ignored") or pc["lower"] == -1 or pc.get("upper") == -1:
+                ctx.fail("solid-component-ignored", "every solid component (any non-fluid material, Custom included) takes "
+                         "part in the linkage", dict(case, block=ib, comp=c["name"]), observed=pc.get("lower"))
+                continue
+            ok_stack = (c["h"] is not None and c["zt"] is not None and c["zb"] is not None
+                        and fclose(c["h"], pc["g"] * pb["h"], 1e-12) and fclose(c["zt"] - c["zb"], c["h"], 1e-9)
+                        and fclose(c["nd"] * pc["g"], pc["nd"], 1e-11))
+            if not ok_stack:
+                ctx.fail("solid-component-restacked", "every solid component below the dummy block is re-stacked: height = "
+                         "factor x old block height, density divided by the factor", dict(case, block=ib, comp=c["name"]),
+                         observed=[c["h"], c["zb"], c["zt"], c["nd"]], expected=[pc["g"] * pb["h"], None, None, pc["nd"] / pc["g"] if pc["g"] else None])
             low = pb["comps"][ic]["lower"]
             if ib > 0 and low is not None and c["zb"] != post[ib - 1]["comps"][low]["zt"]:
                 ctx.fail("linked-stay-stacked", "a linked component sits on the component below it",
@@ -256,8 +280,8 @@ def oracle_linkage(ctx, case, a, chg):
     solid components of adjacent blocks, through AssemblyAxialLinkage.linkedComponents and with the arguments of
     areAxiallyLinked swapped"""
     from armi.reactor.converters.axialExpansionChanger import assemblyAxialLinkage as aal
-    from armi.reactor.converters.axialExpansionChanger.expansionData import iterSolidComponents
 
+    iterSolidComponents = solids
     links = chg.linked.linkedComponents
     blocks = list(a)
     for ib in range(1, len(blocks)):
@@ -649,7 +673,7 @@ def run_small_steps(ctx, collect):
 
 
 # --------------------------------------------------------------------------- assemblies built through the real API
-BUILT_KINDS = ("fuel", "holedslab", "slab", "holedpins", "pinslab", "pinslab61")
+BUILT_KINDS = ("fuel", "holedslab", "slab", "holedpins", "pinslab", "pinslab61", "customfuel")
 BUILT_STACKS = [
     ["fuel", "holedslab"],          # derived HoledHexagon target directly above a base-class Hexagon (duct) that is not the lower target
     ["fuel", "holedpins"],          # derived HexHoledCircle target above base-class Circles (fuel = lower target, clad is not)
@@ -658,6 +682,7 @@ BUILT_STACKS = [
     ["holedslab", "slab"],          # base class above derived
     ["holedpins", "pinslab"],       # base class above derived
     ["holedslab", "holedslab"], ["slab", "slab"], ["fuel", "fuel"], ["holedpins", "holedpins"],   # same-type controls
+    ["customfuel", "holedslab"], ["customfuel", "customfuel", "slab"], ["fuel", "customfuel"], ["slab", "customfuel"],
     ["pinslab", "pinslab61"], ["pinslab61", "pinslab", "pinslab"],      # same class, different multiplicity
     ["fuel", "holedslab", "slab", "holedpins"],
     ["slab", "fuel", "fuel", "holedslab", "holedslab"],
@@ -680,6 +705,11 @@ def build_assembly(kinds, heights):
         if kind == "fuel":
             comps = [Circle("fuel", "UZr", od=0.76, id=0.0, mult=127.0, **T), Circle("clad", "HT9", od=0.80, id=0.77, mult=127.0, **T)]
             tgt = "fuel"
+        elif kind == "customfuel":      # a SOLID target whose material is Custom (custom isotopics)
+            cf = Circle("fuel", "Custom", od=0.76, id=0.0, mult=127.0, **T)
+            cf.setNumberDensities({"U235": 0.004, "U238": 0.03, "ZR90": 0.003})
+            comps = [cf, Circle("clad", "HT9", od=0.80, id=0.77, mult=127.0, **T)]
+            tgt = "fuel"
         elif kind == "holedslab":
             comps = [HoledHexagon("reflector", "HT9", op=15.2, holeOD=0.8, nHoles=127, mult=1.0, **T)]
             tgt = "reflector"
@@ -700,7 +730,7 @@ def build_assembly(kinds, heights):
         comps.append(Hexagon("intercoolant", "Sodium", op=17.0, ip=16.0, mult=1.0, **T))
         for c in comps:
             b.add(c)
-        b.setType("fuel" if kind == "fuel" else "reflector")
+        b.setType("fuel" if kind in ("fuel", "customfuel") else "reflector")
         b.getVolumeFractions()
         b.p.axialExpTargetComponent = tgt
         return b
@@ -727,7 +757,8 @@ def run_built(ctx, collect):
     for _ in range(ctx.pick(6, 60)):
         while True:     # a solid-pin block next to a fuel block would be an ambiguous blueprint (two Circles over one)
             st = [ctx.rng.choice(BUILT_KINDS) for _ in range(ctx.rng.randint(2, 5))]
-            if not any({x, y} == {"fuel", "pinslab"} for x, y in zip(st, st[1:])):
+            if not any((x in ("fuel", "customfuel") and y.startswith("pinslab")) or (y in ("fuel", "customfuel") and x.startswith("pinslab"))
+                       for x, y in zip(st, st[1:])):
                 break
         stacks.append(st)
     for kinds in stacks:
